@@ -10,7 +10,7 @@ use chumsky::span::SimpleSpan;
 
 pub const ID: &str = "C04";
 
-pub const RULE: &str = "cases = (grammar, input) with grammars of EVERY class of this harness (C01/C02 + Ext parsers with a separately written check path, validate, recover_with x4 strategies, labels, map_err, memoized, wrappers, recursion, lazy, user state, context, slices/spans, folds) in three mixes (structural only / +emitters and recovery / everything), derived and random inputs, &str and &[char]. Differential oracles, no reference needed: (1) check(i).has_output == parse(i).has_output and check(i).errors == parse(i).errors as lists (span, found, expected set, message, contexts) with Rich, and on a share of the cases with Simple and Cheap; (2) paired formulations: the same grammar rebuilt with every value-eliding combinator replaced by its value-building formulation (ignore_then -> then.map(snd), then_ignore -> then.map(fst), ignored -> map(|_| ()), to(v) -> map(|_| v), to_slice/to_span -> map_with(slice/span), delimited_by/padded_by -> then.then.map, bare repeated()/separated_by()/collect::<()>()/count() -> collect::<Vec<_>>() then discard/len, Ext -> the equal custom()) must give the identical output, error list and final user state, in parse and in check; (3) inner elision: wrapping a node whose value nobody inspects in to_slice() / ignored() (which runs the child in Check mode) must not change acceptance or the error list of the whole grammar. Pratt and nested-input grammars assert parse == check inside C09 / C16. NON-TRIVIAL = the grammar has a node that forces Emit internally (filter, try_map, try_map_with, validate, select, context providers/consumers, collect-based sinks, state pushes) below a combinator that runs its child in Check mode, or any error was emitted/reported; distinct = distinct (sub-check, grammar, input).";
+pub const RULE: &str = "cases = (grammar, input) with grammars of EVERY class of this harness (C01/C02 + Ext parsers with a separately written check path, validate, recover_with x4 strategies, labels, map_err, memoized, wrappers, recursion, lazy, user state, context, slices/spans, folds) in three mixes (structural only / +emitters and recovery / everything), derived and random inputs, &str and &[char]. Differential oracles, no reference needed: (1) check(i).has_output == parse(i).has_output and check(i).errors == parse(i).errors as lists (span, found, expected set, message, contexts) with Rich, and on a share of the cases with Simple and Cheap; (2) paired formulations: the same grammar rebuilt with every value-eliding combinator replaced by its value-building formulation (ignore_then -> then.map(snd), then_ignore -> then.map(fst), ignored -> map(|_| ()), to(v) -> map(|_| v), to_slice/to_span -> map_with(slice/span), delimited_by/padded_by -> then.then.map, bare repeated()/separated_by()/collect::<()>()/count() -> collect::<Vec<_>>() then discard/len, Ext -> the equal custom()) must give the identical output, error list and final user state, in parse and in check; (3) inner elision: wrapping a node whose value nobody inspects in to_slice() / ignored() (which runs the child in Check mode) must not change acceptance or the error list of the whole grammar. Pratt and nested-input grammars assert parse == check inside C09 / C16. Run-time configuration through a reference ((&just).configure) against the by-value formulation, parse / check / value-free positions, on every string over {a b} up to length 6 / 8. NON-TRIVIAL = the grammar has a node that forces Emit internally (filter, try_map, try_map_with, validate, select, context providers/consumers, collect-based sinks, state pushes) below a combinator that runs its child in Check mode, or any error was emitted/reported; distinct = distinct (sub-check, grammar, input).";
 
 pub const ASSUMPTIONS: &[&str] = &[
     "closures are pure; user-state pushes are made from validate(), which runs in both modes",
